@@ -243,6 +243,30 @@ func c05Gen(r *Rand, tier string, emit func(op any)) {
 			emit(c05Op{K: "tree", Tree: s, Atomics: []int{}, Dev: mask&16 == 16, Calls: calls})
 		}
 	}
+	// 1b. siblings derived from ONE parent core: k rounds of hooks over a leaf (the parent, built once and shared), then two
+	//     (or three) sibling wrappers each adding its own hook — each sibling must run the parent's hooks and its own, never
+	//     a sibling's (append into a shared backing array with spare capacity would mix them up)
+	for k := 0; k <= 8; k++ {
+		for _, io := range []bool{false, true} {
+			sub := nodeJ{T: "leaf", ID: 1, IO: io, En: &enabJ{K: "fn", Mask: 0x7f}}
+			for j := 0; j < k; j++ {
+				inner := sub
+				sub = nodeJ{T: "hook", ID: 10 + j, C: &inner}
+			}
+			sub.Sh = 1
+			nsib := 2 + k%2
+			sibs := []nodeJ{}
+			for j := 0; j < nsib; j++ {
+				c := sub
+				sibs = append(sibs, nodeJ{T: "hook", ID: 50 + j, C: &c})
+			}
+			calls := []c05Call{{C: "q"}}
+			for _, l := range []int{0, 2, 4} {
+				calls = append(calls, c05Call{C: "log", FE: "Logger.Log", L: l, Fs: kf(92)})
+			}
+			emit(c05Op{K: "tree", Tree: nodeJ{T: "tee", Cs: sibs}, Atomics: []int{}, Calls: calls})
+		}
+	}
 	// 2. every front end over a fixed two-branch tree, enabled and disabled
 	for _, fe := range fes {
 		for _, thr := range []int{0x7f, 0x60, 0x00} {
@@ -503,7 +527,8 @@ func c05Exec(raw json.RawMessage) Result {
 			// ---- oracle: path products
 			inRange := l >= -1 && l <= 5
 			wantWrites := map[int]int{}
-			wantHooks := map[int]int{}
+			wantHooks := map[int]int{} // per hook id: the number of hook NODES with that id whose wrapped core accepts the entry
+			seenHookNode := map[*nodeJ]bool{}
 			anyOpen := false
 			for i := range paths {
 				p := &paths[i]
@@ -515,8 +540,11 @@ func c05Exec(raw json.RawMessage) Result {
 					continue
 				}
 				wantWrites[p.leaf]++
-				for _, h := range p.hooks {
-					wantHooks[h] = 1
+				for k, h := range p.hooks {
+					if !seenHookNode[p.hookNs[k]] {
+						seenHookNode[p.hookNs[k]] = true
+						wantHooks[h]++
+					}
 				}
 			}
 			gotWrites, gotHooks := map[int]int{}, map[int]int{}
@@ -589,10 +617,10 @@ func c05Exec(raw json.RawMessage) Result {
 					switch {
 					case wantHooks[h] == 0:
 						fail(bad("C05:hook-fired-without-accept", "%s: hook %d ran %d time(s) at level %d although its wrapped core accepted nothing", where, h, gotHooks[h], l))
-					case gotHooks[h] == 0:
-						fail(bad("C05:hook-missing", "%s: hook %d did not run although its wrapped core accepted the entry", where, h))
-					case gotHooks[h] > 1:
-						fail(bad("C05:hook-twice", "%s: hook %d ran %d times for one entry", where, h, gotHooks[h]))
+					case gotHooks[h] < wantHooks[h]:
+						fail(bad("C05:hook-missing", "%s: hook %d ran %d time(s), its wrapped core accepted the entry through %d wrapper(s)", where, h, gotHooks[h], wantHooks[h]))
+					case gotHooks[h] > wantHooks[h]:
+						fail(bad("C05:hook-twice", "%s: hook %d ran %d times for one entry (%d expected)", where, h, gotHooks[h], wantHooks[h]))
 					}
 				}
 				if len(wantWrites) > 0 {
